@@ -746,6 +746,42 @@ def read_shadow(t, i):
 ''', [("read", [(";x", 0), ("12+", 0), (":ab", 0), (":[", 0), (":+", 0), ("+", 0), (":", 0)]), ("read_shadow", [("+", 0), ("7", 0)]), ("capture", [(1,), (5,)])])
 
 
+# ---- a decision stored as a module-level table of literals
+case('''
+_ARITH = {'+', '-', '*'}
+_CMP = {'=', '<'}
+_KIND = {**{op: 'binop' for op in _ARITH}, **{op: 'cmp' for op in _CMP}}
+_PRIO = {'+': 1, '-': 1, '*': 2}
+
+class Node:
+    def __init__(self, op):
+        self.op = op
+
+def build(node, l, r):
+    kind = _KIND.get(node.op)
+    if kind is None:
+        return None
+    return (kind, node.op, l, r)
+
+def prio(op):
+    p = _PRIO[op]
+    return p * 10
+
+def run(op):
+    try:
+        pr = prio(op)
+    except KeyError as e:
+        pr = "KeyError " + str(e)
+    except TypeError as e:
+        pr = "TypeError"
+    try:
+        b = build(Node(op), 1, 2)
+    except TypeError:
+        b = "TypeError"
+    return b, pr
+''', [("run", [('+',), ('*',), ('=',), ('<',), ('?',), (None,), (5,), ([],)])])
+
+
 def outcome(ns, fn, args):
     import copy
     try:
